@@ -15,7 +15,7 @@ namespace Bpp.ParamList
 @[grind =] theorem nameOf_def (h : Store) (i : ObjId) : nameOf h i = (h.get i).name := rfl
 
 /-- all ids of the list have been allocated -/
-def Valid (h : Store) (l : List ObjId) : Prop := ∀ i ∈ l, i < h.next
+def Valid (h : Store) (l : List ObjId) : Prop := ∀ i : Nat, i ∈ l → i < h.next
 /-- every allocated object satisfies its own constraint -/
 def HeapOk (h : Store) : Prop := ∀ i, i < h.next → (h.get i).ok = true
 
@@ -157,5 +157,643 @@ theorem find?_self {h : Store} {l : List ObjId} (nd : (names h l).Nodup) {i : Ob
       have : nameOf h a ≠ nameOf h i := fun c => nd.1 i hit c.symm
       rw [beq_eq_false_iff_ne.2 this]
       exact ih nd.2 hit
+
+/-! ## History invariants of the list functions
+
+`GoodLR h l r`: the result `r` of a function started on heap `h` and list `l` has a later
+heap, a valid list, and unique names if `l` had. -/
+
+structure GoodLR (h : Store) (l : List ObjId) (r : LR) : Prop where
+  pres : Pres h r.heap
+  valid : Valid r.heap r.list
+  nodup : (names h l).Nodup → (names r.heap r.list).Nodup
+
+theorem GoodLR.refl {h : Store} {l : List ObjId} (v : Valid h l) (e : Option Err) :
+    GoodLR h l { heap := h, list := l, err := e } := ⟨Pres.refl h, v, id⟩
+
+theorem GoodLR.trans {h : Store} {l : List ObjId} {r r' : LR} (a : GoodLR h l r)
+    (b : GoodLR r.heap r.list r') : GoodLR h l r' :=
+  ⟨a.pres.trans b.pres, b.valid, fun nd => b.nodup (a.nodup nd)⟩
+
+theorem setParameterValue_pres (h : Store) (l : List ObjId) (n : String) (v : Rat) :
+    Pres h (setParameterValue h l n v).heap := by
+  unfold setParameterValue
+  split
+  · exact Pres.refl h
+  · split
+    · next e => exact pres_put_setValue h _ e
+    · exact Pres.refl h
+
+theorem names_append (h : Store) (a b : List ObjId) : names h (a ++ b) = names h a ++ names h b := by
+  simp [names]
+
+theorem addParameter_good {h : Store} {l : List ObjId} (p : Par) (v : Valid h l)
+    (hp : HeapOk h → p.ok = true) : GoodLR h l (addParameter h l p) := by
+  unfold addParameter
+  split
+  · exact GoodLR.refl v _
+  · next hn =>
+    have pr := pres_alloc h p hp
+    refine ⟨pr, ?_, ?_⟩
+    · intro i hi
+      simp only [List.mem_append, List.mem_singleton, alloc_snd] at hi
+      rcases hi with hi | hi
+      · exact Nat.lt_of_lt_of_le (v i hi) pr.next_le
+      · subst hi; simp
+    · intro nd
+      simp only [alloc_snd]
+      rw [names_append, pr.names v]
+      have : names (h.alloc p).1 [h.next] = [p.name] := by simp [names, nameOf]
+      rw [this]
+      simp only [Bool.not_eq_true] at hn
+      have hn' := (hasParameter_false_iff h l p.name).1 hn
+      exact List.nodup_append.2 ⟨nd, by simp, by
+        intro a ha b hb; simp only [List.mem_singleton] at hb; subst hb; exact fun c => hn' (c ▸ ha)⟩
+
+theorem shareParameter_good {h : Store} {l : List ObjId} {i : ObjId} (v : Valid h l) (hi : i < h.next) :
+    GoodLR h l (shareParameter h l i) := by
+  unfold shareParameter
+  split
+  · have pr := setParameterValue_pres h l (nameOf h i) (h.get i).value
+    exact ⟨pr, v.mono pr, fun nd => by rw [pr.names v]; exact nd⟩
+  · next hn =>
+    refine ⟨Pres.refl h, ?_, ?_⟩
+    · intro j hj
+      simp only [List.mem_append, List.mem_singleton] at hj
+      rcases hj with hj | hj
+      · exact v j hj
+      · subst hj; exact hi
+    · intro nd
+      simp only [Bool.not_eq_true] at hn
+      have hn' := (hasParameter_false_iff h l _).1 hn
+      rw [names_append]
+      exact List.nodup_append.2 ⟨nd, by simp [names], by
+        intro a ha b hb
+        simp only [names, List.map_cons, List.map_nil, List.mem_singleton] at hb
+        subst hb; exact fun c => hn' (c ▸ ha)⟩
+
+theorem addParameters_good {h : Store} {l : List ObjId} (src : List ObjId) (v : Valid h l)
+    (vs : Valid h src) : GoodLR h l (addParameters h l src) := by
+  induction src generalizing h l with
+  | nil => exact GoodLR.refl v none
+  | cons i rest ih =>
+    unfold addParameters; dsimp only
+    have g := addParameter_good (h := h) (l := l) (h.get i) v (fun hk => hk i (vs i (List.mem_cons_self ..)))
+    split
+    · exact ⟨g.pres, g.valid, g.nodup⟩
+    · exact g.trans (ih g.valid (Valid.mono (fun j hj => vs j (List.mem_cons_of_mem _ hj)) g.pres))
+
+theorem shareParameters_good {h : Store} {l : List ObjId} (src : List ObjId) (v : Valid h l)
+    (vs : Valid h src) : GoodLR h l (shareParameters h l src) := by
+  induction src generalizing h l with
+  | nil => exact GoodLR.refl v none
+  | cons i rest ih =>
+    unfold shareParameters; dsimp only
+    have g := shareParameter_good (h := h) (l := l) v (vs i (List.mem_cons_self ..))
+    split
+    · exact ⟨g.pres, g.valid, g.nodup⟩
+    · exact g.trans (ih g.valid (Valid.mono (fun j hj => vs j (List.mem_cons_of_mem _ hj)) g.pres))
+
+theorem includeParameters_good {h : Store} {l : List ObjId} (src : List ObjId) (v : Valid h l)
+    (vs : Valid h src) : GoodLR h l (includeParameters h l src) := by
+  induction src generalizing h l with
+  | nil => exact GoodLR.refl v none
+  | cons i rest ih =>
+    unfold includeParameters; dsimp only
+    have hi := vs i (List.mem_cons_self ..)
+    have vr : Valid h rest := fun j hj => vs j (List.mem_cons_of_mem _ hj)
+    split
+    · have pr := setParameterValue_pres h l (nameOf h i) (h.get i).value
+      have g : GoodLR h l { heap := (setParameterValue h l (nameOf h i) (h.get i).value).heap, list := l } :=
+        ⟨pr, v.mono pr, fun nd => by rw [pr.names v]; exact nd⟩
+      split
+      · exact ⟨g.pres, g.valid, g.nodup⟩
+      · exact g.trans (ih g.valid (vr.mono pr))
+    · next hn =>
+      -- same as addParameter of a clone
+      have g := addParameter_good (h := h) (l := l) (h.get i) v (fun hk => hk i hi)
+      have e : addParameter h l (h.get i) = { heap := (h.alloc (h.get i)).1, list := l ++ [(h.alloc (h.get i)).2] } := by
+        unfold addParameter; rw [if_neg]; exact hn
+      rw [e] at g
+      exact g.trans (ih g.valid (vr.mono g.pres))
+
+/-! ### setParameter (repaired code) -/
+
+theorem nameElsewhere_false {h : Store} {l : List ObjId} {k : Nat} {n : String}
+    (e : nameElsewhere h l k n = false) : n ∉ names h (l.eraseIdx k) := by
+  unfold nameElsewhere at e
+  exact (hasParameter_false_iff h (l.eraseIdx k) n).1 e
+
+theorem nodup_set_of_not_mem_eraseIdx {α : Type} : ∀ (l : List α) (k : Nat) (a : α), k < l.length →
+    l.Nodup → a ∉ l.eraseIdx k → (l.set k a).Nodup
+  | [], _, _, hk, _, _ => by simp at hk
+  | x :: t, 0, a, _, nd, ha => by
+    simp only [List.eraseIdx_cons_zero] at ha
+    simp only [List.set_cons_zero, List.nodup_cons]
+    exact ⟨ha, (List.nodup_cons.1 nd).2⟩
+  | x :: t, k + 1, a, hk, nd, ha => by
+    simp only [List.eraseIdx_cons_succ, List.mem_cons, not_or] at ha
+    simp only [List.set_cons_succ, List.nodup_cons]
+    have nd' := List.nodup_cons.1 nd
+    refine ⟨?_, nodup_set_of_not_mem_eraseIdx t k a (by simpa using hk) nd'.2 ha.2⟩
+    intro hx
+    rcases List.mem_or_eq_of_mem_set hx with hx | hx
+    · exact nd'.1 hx
+    · exact ha.1 hx.symm
+
+theorem eraseIdx_map {α β : Type} (f : α → β) (l : List α) (k : Nat) :
+    (l.map f).eraseIdx k = (l.eraseIdx k).map f := by
+  induction l generalizing k with
+  | nil => rfl
+  | cons a t ih => cases k with
+    | zero => rfl
+    | succ k => simp [ih]
+
+theorem setParameter_good {h : Store} {l : List ObjId} (k : Nat) (p : Par) (v : Valid h l)
+    (hp : HeapOk h → p.ok = true) : GoodLR h l (setParameter h l k p) := by
+  unfold setParameter
+  split
+  · exact GoodLR.refl v _
+  · next hk =>
+    split
+    · exact GoodLR.refl v _
+    · next hn =>
+      have pr := pres_alloc h p hp
+      have hk' : k < l.length := by omega
+      refine ⟨pr, ?_, ?_⟩
+      · intro i hi
+        rcases List.mem_or_eq_of_mem_set hi with hi | hi
+        · exact Nat.lt_of_lt_of_le (v i hi) pr.next_le
+        · subst hi; simp
+      · intro nd
+        simp only [alloc_snd, Bool.not_eq_true] at hn ⊢
+        have hn' := nameElsewhere_false hn
+        have e : names (h.alloc p).1 (l.set k h.next) = (names h l).set k p.name := by
+          unfold names
+          rw [List.map_set]
+          have : nameOf (h.alloc p).1 h.next = p.name := by simp [nameOf]
+          rw [this]
+          congr 1
+          exact List.map_congr_left (fun i hi => pr.name_eq i (v i hi))
+        rw [e]
+        apply nodup_set_of_not_mem_eraseIdx _ _ _ (by simpa [names] using hk') nd
+        rw [show names h l = l.map (nameOf h) from rfl, eraseIdx_map]
+        exact hn'
+
+/-! ### bulk setters: heap-level `Pres` -/
+
+theorem applyAll_pres (src : List ObjId) (l : List ObjId) (h : Store) : Pres h (applyAll h src l).heap := by
+  induction l generalizing h with
+  | nil => exact Pres.refl h
+  | cons i rest ih =>
+    unfold applyAll
+    split
+    · exact Pres.refl h
+    · split
+      · next e => exact (pres_put_setValue h _ e).trans (ih _)
+      · exact Pres.refl h
+
+theorem setAllParametersValues_pres (h : Store) (l src : List ObjId) :
+    Pres h (setAllParametersValues h l src).heap := by
+  unfold setAllParametersValues
+  split
+  · exact Pres.refl h
+  · exact applyAll_pres src l h
+
+theorem applySome_pres (l : List ObjId) (src : List ObjId) (h : Store) : Pres h (applySome h l src).heap := by
+  induction src generalizing h with
+  | nil => exact Pres.refl h
+  | cons i rest ih =>
+    unfold applySome
+    split
+    · exact ih _
+    · split
+      · next e => exact (pres_put_setValue h _ e).trans (ih _)
+      · exact Pres.refl h
+
+theorem setParametersValues_pres (h : Store) (l src : List ObjId) :
+    Pres h (setParametersValues h l src).heap := by
+  unfold setParametersValues
+  split
+  · exact Pres.refl h
+  · exact applySome_pres l src h
+
+theorem matchSome_pres (l : List ObjId) (src : List ObjId) (h : Store) (pos : Nat) :
+    Pres h (matchSome h l pos src).heap := by
+  induction src generalizing h pos with
+  | nil => exact Pres.refl h
+  | cons i rest ih =>
+    unfold matchSome
+    split
+    · exact ih _ _
+    · split
+      · split
+        · next e => exact (pres_put_setValue h _ e).trans (ih _ _)
+        · exact Pres.refl h
+      · exact ih _ _
+
+theorem matchParametersValues_pres (h : Store) (l src : List ObjId) :
+    Pres h (matchParametersValues h l src).heap := by
+  unfold matchParametersValues
+  split
+  · exact Pres.refl h
+  · exact matchSome_pres l src h 0
+
+/-! ### whole-parameter assignment -/
+
+theorem setAllParameters_pres (src : List ObjId) (l : List ObjId) (h : Store) (vs : Valid h src) :
+    Pres h (setAllParameters h src l).heap := by
+  induction l generalizing h with
+  | nil => exact Pres.refl h
+  | cons i rest ih =>
+    unfold setAllParameters
+    split
+    · exact Pres.refl h
+    · next j e =>
+      have pr := pres_put_assign h (t := i) (find?_valid vs e) (find?_some e).2
+      exact pr.trans (ih _ (vs.mono pr))
+
+theorem setParameters_pres (l : List ObjId) (src : List ObjId) (h : Store) (vs : Valid h src) :
+    Pres h (setParameters h l src).heap := by
+  induction src generalizing h with
+  | nil => exact Pres.refl h
+  | cons s rest ih =>
+    unfold setParameters
+    have hs := vs s (List.mem_cons_self ..)
+    have vr : Valid h rest := fun j hj => vs j (List.mem_cons_of_mem _ hj)
+    split
+    · exact Pres.refl h
+    · next t e =>
+      have pr := pres_put_assign h (t := t) hs (find?_some e).2.symm
+      exact pr.trans (ih _ (vr.mono pr))
+
+theorem matchParameters_pres (l : List ObjId) (src : List ObjId) (h : Store) (vs : Valid h src) :
+    Pres h (matchParameters h l src).heap := by
+  induction src generalizing h with
+  | nil => exact Pres.refl h
+  | cons s rest ih =>
+    unfold matchParameters
+    have hs := vs s (List.mem_cons_self ..)
+    have vr : Valid h rest := fun j hj => vs j (List.mem_cons_of_mem _ hj)
+    split
+    · exact ih _ vr
+    · next t e =>
+      have pr := pres_put_assign h (t := t) hs (find?_some e).2.symm
+      exact pr.trans (ih _ (vr.mono pr))
+
+/-! ### deletion: the result is a sub-list -/
+
+theorem Valid.sublist {h : Store} {l l' : List ObjId} (v : Valid h l) (s : l'.Sublist l) : Valid h l' :=
+  fun i hi => v i (s.subset hi)
+
+theorem names_sublist {h : Store} {l l' : List ObjId} (s : l'.Sublist l) :
+    (names h l').Sublist (names h l) := s.map _
+
+theorem deleteParameter_sublist {h : Store} {l l' : List ObjId} {n : String}
+    (e : deleteParameter h l n = .ok l') : l'.Sublist l := by
+  unfold deleteParameter at e
+  split at e
+  · cases e; exact List.eraseIdx_sublist ..
+  · cases e
+
+theorem deleteParameters_sublist (h : Store) (must : Bool) (ns : List String) (l : List ObjId) :
+    (deleteParameters h must l ns).1.Sublist l := by
+  induction ns generalizing l with
+  | nil => exact List.Sublist.refl _
+  | cons n rest ih =>
+    unfold deleteParameters
+    split
+    · next l' e => exact (ih l').trans (deleteParameter_sublist e)
+    · split
+      · exact List.Sublist.refl _
+      · exact ih l
+
+theorem deleteParameterIdx_sublist {l l' : List ObjId} {k : Nat}
+    (e : deleteParameterIdx l k = .ok l') : l'.Sublist l := by
+  unfold deleteParameterIdx at e
+  split at e
+  · cases e
+  · cases e; exact List.eraseIdx_sublist ..
+
+theorem eraseDesc_sublist (idx : List Nat) (l : List ObjId) : (eraseDesc l idx).1.Sublist l := by
+  induction idx generalizing l with
+  | nil => exact List.Sublist.refl _
+  | cons k rest ih =>
+    unfold eraseDesc
+    split
+    · exact List.Sublist.refl _
+    · exact (ih _).trans (List.eraseIdx_sublist ..)
+
+theorem deleteParametersIdx_sublist (idx : List Nat) (l : List ObjId) :
+    (deleteParametersIdx l idx).1.Sublist l := eraseDesc_sublist _ l
+
+/-! ### clones and sub-lists -/
+
+/-- the clone list: later heap, fresh distinct ids, same contents -/
+theorem cloneAll_spec (l : List ObjId) (h : Store) (v : Valid h l) :
+    Pres h (cloneAll h l).1 ∧ Valid (cloneAll h l).1 (cloneAll h l).2 ∧
+    (∀ i ∈ (cloneAll h l).2, h.next ≤ i) ∧ (cloneAll h l).2.Nodup ∧
+    (cloneAll h l).2.map (cloneAll h l).1.get = l.map h.get ∧
+    (∀ i, i < h.next → (cloneAll h l).1.get i = h.get i) := by
+  induction l generalizing h with
+  | nil => exact ⟨Pres.refl h, Valid.nil h, by simp [cloneAll], by simp [cloneAll], rfl, fun _ _ => rfl⟩
+  | cons a t ih =>
+    have ha := v a (List.mem_cons_self ..)
+    have pr := pres_clone h ha
+    have vt : Valid (h.alloc (h.get a)).1 t := Valid.mono (fun j hj => v j (List.mem_cons_of_mem _ hj)) pr
+    obtain ⟨p1, p2, p3, p4, p5, p6⟩ := ih (h.alloc (h.get a)).1 vt
+    simp only [cloneAll, alloc_snd]
+    simp only [next_alloc] at p3
+    refine ⟨pr.trans p1, ?_, ?_, ?_, ?_, ?_⟩
+    · intro i hi
+      rcases List.mem_cons.1 hi with hi | hi
+      · subst hi; exact Nat.lt_of_lt_of_le (by simp) p1.next_le
+      · exact p2 i hi
+    · intro i hi
+      rcases List.mem_cons.1 hi with hi | hi
+      · subst hi; exact Nat.le_refl _
+      · exact Nat.le_of_succ_le (p3 i hi)
+    · refine List.nodup_cons.2 ⟨fun c => ?_, p4⟩
+      have := p3 _ c; omega
+    · simp only [List.map_cons]
+      rw [p6 h.next (by simp), p5]
+      simp only [get_alloc, if_true]
+      congr 1
+      apply List.map_congr_left
+      intro j hj
+      have := v j (List.mem_cons_of_mem _ hj)
+      grind
+    · intro i hi
+      rw [p6 i (by simp; omega)]
+      grind
+
+theorem names_eq_of_map_get {h h' : Store} {l l' : List ObjId} (e : l'.map h'.get = l.map h.get) :
+    names h' l' = names h l := by
+  have : (l'.map h'.get).map Par.name = (l.map h.get).map Par.name := by rw [e]
+  simp only [List.map_map] at this
+  exact this
+
+theorem createSubListNames_good (l : List ObjId) (ns : List String) {h : Store} {acc : List ObjId}
+    (v : Valid h l) (va : Valid h acc) : GoodLR h acc (createSubListNames h l acc ns) := by
+  induction ns generalizing h acc with
+  | nil => exact GoodLR.refl va none
+  | cons n rest ih =>
+    unfold createSubListNames
+    split
+    · exact GoodLR.refl va _
+    · next i e =>
+      dsimp only
+      have g := addParameter_good (h := h) (l := acc) (h.get i) va (fun hk => hk i (find?_valid v e))
+      split
+      · exact ⟨g.pres, g.valid, g.nodup⟩
+      · exact g.trans (ih (v.mono g.pres) g.valid)
+
+theorem shareSubListNames_good (l : List ObjId) (ns : List String) {h : Store} {acc : List ObjId}
+    (v : Valid h l) (va : Valid h acc) : GoodLR h acc (shareSubListNames h l acc ns) := by
+  induction ns generalizing h acc with
+  | nil => exact GoodLR.refl va none
+  | cons n rest ih =>
+    unfold shareSubListNames
+    split
+    · exact GoodLR.refl va _
+    · next i e =>
+      dsimp only
+      have g := shareParameter_good (h := h) (l := acc) va (find?_valid v e)
+      split
+      · exact ⟨g.pres, g.valid, g.nodup⟩
+      · exact g.trans (ih (v.mono g.pres) g.valid)
+
+theorem getElem?_valid {h : Store} {l : List ObjId} {k : Nat} {i : ObjId} (v : Valid h l)
+    (e : l[k]? = some i) : i < h.next := v i (List.mem_of_getElem? e)
+
+theorem createSubListIdx_good (l : List ObjId) (idx : List Nat) {h : Store} {acc : List ObjId}
+    (v : Valid h l) (va : Valid h acc) : GoodLR h acc (createSubListIdx h l acc idx) := by
+  induction idx generalizing h acc with
+  | nil => exact GoodLR.refl va none
+  | cons k rest ih =>
+    unfold createSubListIdx
+    split
+    · exact ih v va
+    · next i e =>
+      dsimp only
+      have g := addParameter_good (h := h) (l := acc) (h.get i) va (fun hk => hk i (getElem?_valid v e))
+      split
+      · exact ⟨g.pres, g.valid, g.nodup⟩
+      · exact g.trans (ih (v.mono g.pres) g.valid)
+
+theorem shareSubListIdx_good (l : List ObjId) (idx : List Nat) {h : Store} {acc : List ObjId}
+    (v : Valid h l) (va : Valid h acc) : GoodLR h acc (shareSubListIdx h l acc idx) := by
+  induction idx generalizing h acc with
+  | nil => exact GoodLR.refl va none
+  | cons k rest ih =>
+    unfold shareSubListIdx
+    split
+    · exact ih v va
+    · next i e =>
+      dsimp only
+      have g := shareParameter_good (h := h) (l := acc) va (getElem?_valid v e)
+      split
+      · exact ⟨g.pres, g.valid, g.nodup⟩
+      · exact g.trans (ih (v.mono g.pres) g.valid)
+
+/-- `getCommonParametersWith`: clones of the source entries whose name is in `l` -/
+theorem getCommon_spec (l : List ObjId) (h0 : Store) (src : List ObjId) (h : Store)
+    (vs : Valid h0 src) (le : h0.next ≤ h.next) (same : ∀ i, i < h0.next → h.get i = h0.get i)
+    (pr0 : Pres h0 h) :
+    let r := getCommonParametersWith h0 l h src
+    Pres h0 r.1 ∧ Valid r.1 r.2 ∧ (∀ i ∈ r.2, h.next ≤ i) ∧ r.2.Nodup ∧
+    r.2.map r.1.get = (src.filter (fun s => hasParameter h0 l (nameOf h0 s))).map h0.get ∧
+    (∀ i, i < h.next → r.1.get i = h.get i) ∧ h.next ≤ r.1.next := by
+  induction src generalizing h with
+  | nil => exact ⟨pr0, Valid.nil _, by simp [getCommonParametersWith], by simp [getCommonParametersWith], rfl, fun _ _ => rfl, Nat.le_refl _⟩
+  | cons s rest ih =>
+    have hs := vs s (List.mem_cons_self ..)
+    have vr : Valid h0 rest := fun j hj => vs j (List.mem_cons_of_mem _ hj)
+    unfold getCommonParametersWith
+    split
+    · next hc =>
+      have pa : Pres h (h.alloc (h0.get s)).1 := pres_alloc h _ (fun hk => by
+        have := hk s (Nat.lt_of_lt_of_le hs le); rw [same s hs] at this; exact this)
+      have same' : ∀ i, i < h0.next → (h.alloc (h0.get s)).1.get i = h0.get i := by
+        intro i hi; rw [← same i hi]; grind
+      obtain ⟨p1, p2, p3, p4, p5, p6, p7⟩ := ih (h.alloc (h0.get s)).1 vr (by simp; omega) same' (pr0.trans pa)
+      dsimp only
+      simp only [alloc_snd]
+      simp only [next_alloc] at p3 p6 p7
+      refine ⟨p1, ?_, ?_, ?_, ?_, ?_, by omega⟩
+      · intro i hi
+        rcases List.mem_cons.1 hi with hi | hi
+        · subst hi; omega
+        · exact p2 i hi
+      · intro i hi
+        rcases List.mem_cons.1 hi with hi | hi
+        · subst hi; exact Nat.le_refl _
+        · exact Nat.le_of_succ_le (p3 i hi)
+      · refine List.nodup_cons.2 ⟨fun c => ?_, p4⟩
+        have := p3 _ c; omega
+      · simp only [List.map_cons, List.filter_cons, hc, if_true]
+        rw [p6 h.next (by omega), p5]
+        simp
+      · intro i hi
+        rw [p6 i (by omega)]
+        grind
+    · next hc =>
+      obtain ⟨p1, p2, p3, p4, p5, p6, p7⟩ := ih h vr le same pr0
+      refine ⟨p1, p2, p3, p4, ?_, p6, p7⟩
+      rw [p5]; simp [hc]
+
+/-! ### AbstractParametrizable layer -/
+
+theorem apSetAllParametersValues_pres (h : Store) (l src : List ObjId) :
+    Pres h (apSetAllParametersValues h l src).heap := by
+  unfold apSetAllParametersValues; dsimp only
+  split <;> exact setAllParametersValues_pres h l src
+
+theorem apSetParametersValues_pres (h : Store) (l src : List ObjId) :
+    Pres h (apSetParametersValues h l src).heap := by
+  unfold apSetParametersValues; dsimp only
+  split <;> exact setParametersValues_pres h l src
+
+theorem apSetParameterValue_pres (h : Store) (l : List ObjId) (pre n : String) (v : Rat)
+    (vl : Valid h l) : Pres h (apSetParameterValue h l pre n v).heap := by
+  unfold apSetParameterValue; dsimp only
+  have p1 := setParameterValue_pres h l (pre ++ n) v
+  split
+  · exact p1
+  · have g := createSubListNames_good l [pre ++ n] (vl.mono p1) (Valid.nil _)
+    split <;> exact p1.trans g.pres
+
+theorem apMatchParametersValues_pres (h : Store) (l src : List ObjId) (vs : Valid h src) :
+    Pres h (apMatchParametersValues h l src).heap := by
+  unfold apMatchParametersValues; dsimp only
+  have p1 := matchParametersValues_pres h l src
+  split
+  · exact p1
+  · split
+    · exact p1.trans (shareSubListIdx_good src _ (vs.mono p1) (Valid.nil _)).pres
+    · exact p1
+
+/-! ## Machine states -/
+
+/-- the invariant of every reachable machine state -/
+structure Inv (s : State) : Prop where
+  wf : ∀ k, Valid s.heap (s.lists k)
+  ok : HeapOk s.heap
+  names : ∀ k, (names s.heap (s.lists k)).Nodup
+
+theorem inv_init : Inv State.init :=
+  ⟨fun _ => Valid.nil _, fun i hi => by simp [State.init, Store.empty] at hi, fun _ => List.nodup_nil⟩
+
+/-- every step has this shape: a later heap, and one register replaced by a valid list with unique names -/
+theorem inv_update {s : State} (inv : Inv s) {h' : Store} (pr : Pres s.heap h') (k : Nat) {l' : List ObjId}
+    (v : Valid h' l') (nd : (names h' l').Nodup) : Inv ((s.withHeap h').setList k l') := by
+  refine ⟨fun j => ?_, pr.ok inv.ok, fun j => ?_⟩
+  · simp only [State.setList, State.withHeap]
+    split
+    · exact v
+    · exact (inv.wf j).mono pr
+  · simp only [State.setList, State.withHeap]
+    split
+    · exact nd
+    · rw [pr.names (inv.wf j)]; exact inv.names j
+
+theorem inv_heap {s : State} (inv : Inv s) {h' : Store} (pr : Pres s.heap h') : Inv (s.withHeap h') :=
+  ⟨fun j => (inv.wf j).mono pr, pr.ok inv.ok, fun j => by
+    simp only [State.withHeap]; rw [pr.names (inv.wf j)]; exact inv.names j⟩
+
+theorem inv_setList {s : State} (inv : Inv s) (k : Nat) {l' : List ObjId}
+    (v : Valid s.heap l') (nd : (names s.heap l').Nodup) : Inv (s.setList k l') :=
+  inv_update inv (Pres.refl _) k v nd
+
+theorem inv_sublist {s : State} (inv : Inv s) (k : Nat) {l' : List ObjId}
+    (sub : l'.Sublist (s.lists k)) : Inv (s.setList k l') :=
+  inv_setList inv k ((inv.wf k).sublist sub) ((names_sublist sub).nodup (inv.names k))
+
+theorem inv_stepLR {s : State} (inv : Inv s) (k : Nat) {r : LR} (g : GoodLR s.heap (s.lists k) r) :
+    Inv (stepLR s k r).1 :=
+  inv_update inv g.pres k g.valid (g.nodup (inv.names k))
+
+theorem inv_stepHR {s : State} (inv : Inv s) {r : HR} (pr : Pres s.heap r.heap) : Inv (stepHR s r).1 :=
+  inv_heap inv pr
+
+theorem inv_stepSub {s : State} (inv : Inv s) (j : Nat) {r : LR} (g : GoodLR s.heap [] r) :
+    Inv (stepSub s j r).1 := by
+  unfold stepSub
+  split
+  · exact inv_heap inv g.pres
+  · exact inv_update inv g.pres j g.valid (g.nodup List.nodup_nil)
+
+theorem inv_stepAR {s : State} (inv : Inv s) {r : AR} (b : Bool) (pr : Pres s.heap r.heap) :
+    Inv (stepAR s r b).1 := inv_heap inv pr
+
+/-- **Every operation except `setNamespace` keeps the invariant** (valid ids, every object
+satisfies its constraint, names pairwise different in every list). -/
+theorem inv_step {s : State} (inv : Inv s) (op : Op) (hop : op.keepsNames = true) : Inv (step s op).1 := by
+  cases op with
+  | add k p | addPtr k p =>
+    simp only [step]
+    split
+    · exact inv
+    · next hp => exact inv_stepLR inv k (addParameter_good p (inv.wf k) (fun _ => by simpa using hp))
+  | addAll k j => exact inv_stepLR inv k (addParameters_good _ (inv.wf k) (inv.wf j))
+  | share k j n =>
+    simp only [step]
+    split
+    · exact inv
+    · next i e => exact inv_stepLR inv k (shareParameter_good (inv.wf k) (find?_valid (inv.wf j) e))
+  | shareAll k j => exact inv_stepLR inv k (shareParameters_good _ (inv.wf k) (inv.wf j))
+  | incl k j => exact inv_stepLR inv k (includeParameters_good _ (inv.wf k) (inv.wf j))
+  | setParam k i p =>
+    simp only [step]
+    split
+    · exact inv
+    · next hp => exact inv_stepLR inv k (setParameter_good i p (inv.wf k) (fun _ => by simpa using hp))
+  | setValue k n v => exact inv_stepHR inv (setParameterValue_pres ..)
+  | setAllValues k j => exact inv_stepHR inv (setAllParametersValues_pres ..)
+  | setValues k j => exact inv_stepHR inv (setParametersValues_pres ..)
+  | testValues k j => simp only [step]; split <;> exact inv
+  | matchValues k j w => exact inv_heap inv (matchParametersValues_pres ..)
+  | setAllParams k j => exact inv_stepHR inv (setAllParameters_pres _ _ _ (inv.wf j))
+  | setParams k j => exact inv_stepHR inv (setParameters_pres _ _ _ (inv.wf j))
+  | matchParams k j => exact inv_stepHR inv (matchParameters_pres _ _ _ (inv.wf j))
+  | delName k n =>
+    simp only [step]
+    split
+    · next l e => exact inv_sublist inv k (deleteParameter_sublist e)
+    · exact inv
+  | delNames k ns must => exact inv_sublist inv k (deleteParameters_sublist ..)
+  | delIdx k i =>
+    simp only [step]
+    split
+    · next l e => exact inv_sublist inv k (deleteParameterIdx_sublist e)
+    · exact inv
+  | delIdxs k idx => exact inv_sublist inv k (deleteParametersIdx_sublist ..)
+  | subNames k j ns => exact inv_stepSub inv j (createSubListNames_good _ _ (inv.wf k) (Valid.nil _))
+  | subName k j n => exact inv_stepSub inv j (createSubListNames_good _ _ (inv.wf k) (Valid.nil _))
+  | subIdxs k j idx => exact inv_stepSub inv j (createSubListIdx_good _ _ (inv.wf k) (Valid.nil _))
+  | subIdx k j i => exact inv_stepSub inv j (createSubListIdx_good _ _ (inv.wf k) (Valid.nil _))
+  | shareSubNames k j ns => exact inv_stepSub inv j (shareSubListNames_good _ _ (inv.wf k) (Valid.nil _))
+  | shareSubIdxs k j idx => exact inv_stepSub inv j (shareSubListIdx_good _ _ (inv.wf k) (Valid.nil _))
+  | common k j m =>
+    obtain ⟨p1, p2, _, _, p5, _, _⟩ := getCommon_spec (s.lists k) s.heap (s.lists j) s.heap (inv.wf j)
+      (Nat.le_refl _) (fun _ _ => rfl) (Pres.refl _)
+    refine inv_update inv p1 m p2 ?_
+    rw [names_eq_of_map_get p5]
+    exact (names_sublist List.filter_sublist).nodup (inv.names j)
+  | which k n => simp only [step]; split <;> exact inv
+  | has k n => exact inv
+  | names k => exact inv
+  | getValue k n => simp only [step]; split <;> exact inv
+  | size k => exact inv
+  | copy k j | assign k j =>
+    obtain ⟨p1, p2, _, _, p5, _⟩ := cloneAll_spec (s.lists k) s.heap (inv.wf k)
+    refine inv_update inv p1 j p2 ?_
+    rw [names_eq_of_map_get p5]; exact inv.names k
+  | reset k => exact inv_setList inv k (Valid.nil _) List.nodup_nil
+  | apSetAll k j => exact inv_stepAR inv _ (apSetAllParametersValues_pres ..)
+  | apSetValue k n v => exact inv_stepAR inv _ (apSetParameterValue_pres _ _ _ _ _ (inv.wf k))
+  | apSetValues k j => exact inv_stepAR inv _ (apSetParametersValues_pres ..)
+  | apMatch k j => exact inv_stepAR inv _ (apMatchParametersValues_pres _ _ _ (inv.wf j))
+  | apNamespace k p => cases hop
 
 end Bpp.ParamList
